@@ -31,7 +31,11 @@ RULE = ("random content-stream programs over m l c v y h re / S s f F f* B B* b 
         "drawn from: single lines, m-l-h, closed/unclosed axis-aligned loops in both orientations, redundant "
         "closing l, zero-length segments, lone m, m-h, re followed by more segments, Bezier segments; a family "
         "`cm, re (w, h of either sign), [W|W*], paint` over nine matrix classes (quarter turns, scales, mirrors, "
-        "x-/y-collapsing, shears, 45 degrees, general, zero) checked against theorem C16_rect_under_ctm; operators "
+        "x-/y-collapsing, shears, 45 degrees, general, zero) checked against theorem C16_rect_under_ctm; documents "
+        "of 2-4 pages run through ONE interpreter (as extract_pages does) whose pages end in a dangling state "
+        "(unpainted segments / closed sub-path / clip rectangle without n / lone m / Bezier / segment after h, "
+        "unmatched q, changed width, dash, colours, CTM, colour spaces) - every page must show exactly what its "
+        "own program demands; operators "
         "with the right operand count and a non-numeric operand (name, array) at every position; a case "
         "is non-trivial when it is a distinct program that paints >= 1 sub-path with >= 1 segment under a "
         "non-identity CTM or a non-default graphics state; `wild` programs (wrong operand counts/types, "
@@ -93,6 +97,9 @@ STATEMENT_STATUS: Dict[str, str] = {
     "C16_painted_with_state_in_force": "proved (every painting operator on every interpreter state)",
     "C16_no_start_no_shape": "proved (a path that does not begin with m paints nothing)",
     "C16_initial_colour_bound": "proved (more than 32 components: no initial colour; regenerated bound)",
+    "C16_page_isolation": "proved (pages through one interpreter: page k's shapes depend on page k only; "
+                          "init_state's reset list regenerated)",
+    "C16_page_starts_fresh": "proved",
 }
 
 # --------------------------------------------------------------------------- operators
@@ -141,6 +148,21 @@ def to_content(ops, style_seed: int = 0) -> bytes:
             out.append(ser_operand(a, 0 if k % 3 else 1))
         out.append(op[0].encode())
     return b" ".join(out) + b"\n"
+
+
+def case_tokens(case) -> List[str]:
+    return tok_line(case).split(" ")[6:]
+
+
+def pages_line(cases) -> str:
+    """`pages` request of the driver: the set-up of the (shared) document, then the pages separated by `|`."""
+    head = tok_line(cases[0]).split(" ")[:6]
+    body: List[str] = []
+    for i, c in enumerate(cases):
+        if i:
+            body.append("|")
+        body.extend(case_tokens(c))
+    return " ".join(["pages"] + head + body)
 
 
 def tok_line(case) -> str:
@@ -277,9 +299,11 @@ def cs_resource(cs: Dict[str, Any]):
     return res, extra
 
 
-def run_impl(cases) -> List[Any]:
+def run_impl(cases, shared: bool = False) -> List[Any]:
     """All cases must share cs/rotate/mediabox (one document, one page per case).
-    Returns per case: list of shape dicts, or 'EXC:<Type>'."""
+    Returns per case: list of shape dicts, or 'EXC:<Type>'.
+    shared=True: ONE resource manager, device and interpreter for all pages, in order - what
+    extract_pages / extract_text / pdf2txt do; otherwise a fresh interpreter per page."""
     from pdfminer.converter import PDFPageAggregator
     from pdfminer.layout import LTCurve
     from pdfminer.pdfdocument import PDFDocument
@@ -295,10 +319,14 @@ def run_impl(cases) -> List[Any]:
                         extra_objs=extra, page_extra=page_extra)
     doc = PDFDocument(PDFParser(io.BytesIO(data)))
     outs: List[Any] = []
+    rm = PDFResourceManager()
+    dev = PDFPageAggregator(rm, laparams=None)
+    it = PDFPageInterpreter(rm, dev)
     for page in PDFPage.create_pages(doc):
-        rm = PDFResourceManager()
-        dev = PDFPageAggregator(rm, laparams=None)
-        it = PDFPageInterpreter(rm, dev)
+        if not shared:
+            rm = PDFResourceManager()
+            dev = PDFPageAggregator(rm, laparams=None)
+            it = PDFPageInterpreter(rm, dev)
         try:
             it.process_page(page)
             lt = dev.get_result()
@@ -1060,6 +1088,147 @@ def check_rect_ctm(ctx: C.Ctx, case, got) -> None:
                            {"rect_under_ctm": True}))
 
 
+# --------------------------------------------------------------------------- pages through ONE interpreter
+
+DANGLING = ("segments", "closed", "re-clip", "lone-m", "q-state", "state", "q-path", "curve", "after-h", "none")
+
+
+def gen_dangling_case(rng, doc, kind: str) -> Dict[str, Any]:
+    """A well-formed page whose content ENDS in a dangling state: path construction that is never painted nor
+    ended with n (plain segments, a closed sub-path, a clip rectangle whose n is missing, a lone m, Bezier
+    segments, a segment after h), an unmatched q, changed colours / width / dash / CTM / colour spaces."""
+    g = Gen(rng, doc["cs"], False, kind == "after-h")
+    if rng.random() < 0.6:
+        g.emit("cm", *[num(x) for x in gen_matrix(rng)])
+    for _ in range(rng.randint(0, 2)):
+        for _ in range(rng.choice([0, 1, 2])):
+            g.state_op()
+        g.path_object()
+    if kind in ("q-state", "q-path"):
+        g.emit("q")
+        g.stack.append((g.ss, g.ns))
+    if kind in ("q-state", "state"):
+        g.emit("w", num(abs(dy(rng, 1, 8))))
+        g.emit("d", [num(F(rng.randint(1, 6)))], num(F(0)))
+        g.emit(rng.choice(["RG", "rg"]), *[num(F(rng.randint(0, 8), 8)) for _ in range(3)])
+        g.emit("cm", *[num(x) for x in gen_matrix(rng)])
+        for _ in range(rng.randint(0, 3)):
+            g.state_op(nested=True)
+    if kind in ("segments", "q-path"):
+        g.emit("m", *g.pt())
+        for _ in range(rng.randint(1, 3)):
+            g.emit("l", *g.pt())
+    elif kind == "closed":
+        g.emit("m", *g.pt())
+        g.emit("l", *g.pt())
+        g.emit("l", *g.pt())
+        g.emit("h")
+    elif kind == "re-clip":
+        g.emit("re", num(dy(rng)), num(dy(rng)), num(dy(rng, 1, 16)), num(dy(rng, 1, 16)))
+        g.emit(rng.choice(["W", "W*"]))
+    elif kind == "lone-m":
+        g.emit("m", *g.pt())
+    elif kind == "curve":
+        g.emit("m", *g.pt())
+        g.emit("c", *g.pt(), *g.pt(), *g.pt())
+        g.emit("v", *g.pt(), *g.pt())
+    elif kind == "after-h":
+        g.emit("re", num(dy(rng)), num(dy(rng)), num(dy(rng, 1, 16)), num(dy(rng, 1, 16)))
+        g.emit("l", *g.pt())
+    return {"rotate": doc["rotate"], "mediabox": doc["mediabox"], "cs": doc["cs"], "ops": g.ops, "dangling": kind}
+
+
+def doc_input(cases, k: int) -> Dict[str, Any]:
+    c0 = cases[0]
+    return {"rotate": c0["rotate"], "mediabox": c0["mediabox"], "cs": c0["cs"],
+            "pages": [c["ops"] for c in cases], "page": k}
+
+
+def pages_failures(cases, k: int) -> List[Dict[str, Any]]:
+    """Property on the implementation: page k of the document, all pages run through ONE interpreter, must
+    show exactly what its own program demands."""
+    try:
+        exp = spec_run(cases[k])
+    except OutsideDomain:
+        return []
+    got = run_impl(cases, shared=True)[k]
+    return diff_all(exp, visible(got))
+
+
+def report_pages_failure(ctx: C.Ctx, cases, k: int, d0) -> None:
+    sig = signature(d0)
+
+    def still(cs, kk) -> Optional[Dict[str, Any]]:
+        try:
+            for d in pages_failures(cs, kk):
+                if signature(d) == sig:
+                    return d
+        except Exception:  # noqa: BLE001
+            return None
+        return None
+    # fewest pages: one earlier page + the failing page, when that is enough
+    for j in range(k - 1, -1, -1):
+        if still([cases[j], cases[k]], 1) is not None:
+            cases, k = [cases[j], cases[k]], 1
+            break
+    # single page: not a page-isolation failure, report it as an ordinary one
+    if still([cases[k]], 0) is not None:
+        report_failure(ctx, cases[k], d0)
+        return
+    for idx in range(len(cases)):
+        if len(cases[idx]["ops"]) < 2:
+            continue
+
+        def keep(ops, idx=idx):
+            cand = list(cases)
+            cand[idx] = dict(cases[idx], ops=ops)
+            return still(cand, k) is not None
+        ops = C.ddmin(list(cases[idx]["ops"]), keep, max_tests=60)
+        cases = list(cases)
+        cases[idx] = dict(cases[idx], ops=ops)
+    d = still(cases, k) or d0
+    what = ("the shapes of a page depend on what an earlier page run through the same interpreter left behind "
+            "(unpainted path / graphics state): " + "; ".join(WHAT.get(f, f) for f in d["fields"][:3]))
+    ctx.fail(C.Failure(what, doc_input(cases, k), d["expected"], d["got"],
+                       {"pages": True, "fields": d["fields"], "npages": len(cases)}))
+
+
+def check_pages(ctx: C.Ctx, cases: List[Dict[str, Any]], seen_sigs: set) -> None:
+    """cases = the pages of ONE document in order.  Tie: Lean `runPagesFrom` (one interpreter state threaded
+    through the pages) vs the implementation with ONE interpreter; property: every page vs its own program."""
+    impl = run_impl(cases, shared=True)
+    model = None
+    if ctx.driver is not None:
+        model = ctx.driver.ask([pages_line(cases)])[0].split(" || ")
+        if len(model) != len(cases):
+            model = [model[0]] * len(cases)
+    for k, case in enumerate(cases):
+        got = impl[k]
+        got_line = got if isinstance(got, str) else page_line(got)
+        try:
+            exp = spec_run(case)
+            dom = True
+        except OutsideDomain:
+            exp, dom = None, False
+        painted = 0 if isinstance(got, str) else len(visible(got))
+        ctx.case(("pp", k, case["rotate"], tuple(case["mediabox"]), sorted(case["cs"].items()),
+                  json.dumps([c["ops"] for c in cases[:k + 1]])), k > 0 and painted > 0,
+                 sample={"page": k, "after": [c.get("dangling", "?") for c in cases[:k]],
+                         "content": to_content(case["ops"]).decode("latin-1")[:200]},
+                 branch="pages:domain" if dom else "pages:wild")
+        if k > 0:
+            ctx.branch("page-after:" + cases[k - 1].get("dangling", "?") + (":paints" if painted else ":empty"))
+        if model is not None and model[k] != got_line:
+            ctx.disagree("model-pages", doc_input(cases, k), got_line, model[k])
+        if dom:
+            for d in diff_all(exp, visible(got)):
+                ctx.branch("propfail:pages:" + "+".join(d["fields"]))
+                sig = ("pages", signature(d))
+                if sig not in seen_sigs and len(seen_sigs) < 12:
+                    seen_sigs.add(sig)
+                    report_pages_failure(ctx, cases, k, d)
+
+
 # --------------------------------------------------------------------------- running a batch
 
 def check_batch(ctx: C.Ctx, cases: List[Dict[str, Any]], in_domain: bool, seen_sigs: set) -> None:
@@ -1140,6 +1309,12 @@ def run_corpus(ctx: C.Ctx) -> None:
 def replay(ctx: C.Ctx, doc, from_corpus: bool = False) -> None:
     logging.disable(logging.CRITICAL)
     inp = doc.get("input", doc)
+    if "pages" in inp:
+        cases = [{"rotate": inp.get("rotate", 0), "mediabox": inp.get("mediabox", ["0", "0", "612", "792"]),
+                  "cs": {k: list(v) for k, v in inp.get("cs", {}).items()}, "ops": ops} for ops in inp["pages"]]
+        ctx.branch("corpus:pages" if from_corpus else "replay:pages")
+        check_pages(ctx, cases, set())
+        return
     if "ops" not in inp:
         return
     case = {"rotate": inp.get("rotate", 0), "mediabox": inp.get("mediabox", ["0", "0", "612", "792"]),
@@ -1157,6 +1332,19 @@ def run(ctx: C.Ctx) -> None:
     for rep in range(ctx.n(1, 12)):
         cases = [gen_rect_ctm_case(rng, cls) for cls in RECT_CTM_CLASSES for _ in range(6)]
         check_batch(ctx, cases, True, seen)
+    # page isolation (theorem C16_page_isolation): documents of 2-4 pages run through ONE interpreter, every
+    # page but the last ending in a dangling state (each kind in turn)
+    for rep in range(ctx.n(20, 400)):
+        if not ctx.time_left():
+            break
+        doc = gen_doc(rng)
+        if rep % 5 == 4:
+            doc["rotate"] = 0
+        npages = rng.choice([2, 2, 3, 4])
+        kinds = [DANGLING[(rep * 3 + i) % len(DANGLING)] for i in range(npages)]
+        cases = [gen_dangling_case(rng, doc, kinds[i]) if i < npages - 1 or rng.random() < 0.3
+                 else dict(gen_case(rng, doc), dangling="none") for i in range(npages)]
+        check_pages(ctx, cases, seen)
     ndocs = ctx.n(240, 6000)
     per = 12
     for di in range(ndocs):
